@@ -499,6 +499,16 @@ def bvf_from_bv_items(ctx):
     it += [("stub", "bv.len", od), ("stub", "bv.int_len", {"I": "u64", "X": "{XD}", "J": "{I}", "Y": ""}), ("stub", "bv.get_int", {"I": "u64", "X": "{XD}", "J": "{I}", "Y": ""})]
     return it + verify(["bvf.try_from_bv"])
 GROUPS["bvf_conv_bv"] = dict(name="bvf_conv_bv", features="#![feature(allocator_api)]", prelude=bvf_from_bv_prelude, items=bvf_from_bv_items)
+# ---- forms with the auto type: Bvf/Bvd op= &Bv (dispatch on the operand), `x op &bv` forms of Bvf<u64,N> / Bvd, and `&a op &b`, `a op &b` on Bv itself
+def bv_forms_items(ctx):
+    k = forms_kind(ctx)
+    it = BASE_DECLS + [("decl", "decl.Bvd"), ("decl", "decl.Bv128"), ("decl", "decl.Bvp"), ("decl", "decl.Bv")] + stub_int() + BIT_CONV_STUB + [("decl", "bvf.consts"), ("decl", "bvd.consts")]
+    leaf = ["bvf.addsub_bvf", "bvf.addsub_bvd", "bvd.addsub_bvf", "bvd.addsub_bvd"] if k == "val" else ["bvf.binop_bvf", "bvf.binop_bvd", "bvd.binop_bvf", "bvd.binop_bvd"]
+    it += stub(leaf) + [("stub", "bvd.clone")]
+    it += verify(["bvf.assign_bv_" + k, "bvd.assign_bv_" + k, "bvf.form_owned_bv_" + k, "bvf.form_ref_bv_" + k, "bvd.form_owned_bv_" + k, "bvd.form_ref_bv_" + k,
+                  "bv.form_owned_bv_" + k, "bv.form_ref_bv_" + k])
+    return it
+GROUPS["bv_forms"] = dict(name="bv_forms", features="#![feature(allocator_api)]", prelude=bv_ops_prelude, items=bv_forms_items)
 GROUPS["div_theory"] = dict(name="div_theory", prelude=lambda ctx: WORD_PRELUDE + VALUE_PRELUDE + ["value_div.rs"], items=lambda ctx: [("decl", "decl.Bit")])
 GROUPS["mul_theory"] = dict(name="mul_theory", prelude=lambda ctx: WORD_PRELUDE + VALUE_PRELUDE + ["value_mul.rs"], items=lambda ctx: [("decl", "decl.Bit")])
 
@@ -704,8 +714,10 @@ def forms_jobs(pairs, js, bitops, arith):
     for (i, j) in pairs:
         out += [("bvf_forms", pair(i, j, **BITOPS[o])) for o in bitops] + [("bvf_forms", pair(i, j, **ARITH[o])) for o in arith]
     return out
-FORMS_Q = forms_jobs([("u64", "u64"), ("u8", "u64")], ["u64"], ("or",), ("add", "sub")) + forms_jobs([], ["u8"], ("xor",), ())
-FORMS_T = forms_jobs(PT, W4, ("and", "or", "xor"), ("add", "sub"))
+def bv_forms_jobs(bitops, arith):
+    return [("bv_forms", pair("u64", "u64", **BITOPS[o])) for o in bitops] + [("bv_forms", pair("u64", "u64", **ARITH_D[o])) for o in arith]
+FORMS_Q = bv_forms_jobs(("or",), ("add", "sub")) + forms_jobs([("u64", "u64"), ("u8", "u64")], ["u64"], ("or",), ("add", "sub")) + forms_jobs([], ["u8"], ("xor",), ())
+FORMS_T = bv_forms_jobs(("and", "or", "xor"), ("add", "sub")) + forms_jobs(PT, W4, ("and", "or", "xor"), ("add", "sub"))
 def yj64(j):
     return "" if j == "u64" else "_" + j
 def int_conv_jobs(ws):
@@ -857,11 +869,11 @@ MANIFEST_TEXT["C17"] = dict(
 MANIFEST_TEXT["C20"] = dict(
     text=("Proof (for the forms listed; exploration for the rest): every form of + - & | ^ funnels into a compound assignment `a op= &b`; those bodies are verified (C01, C04), and the forwarding forms are verified against "
           "the SAME contract as the assignment they forward to: `a op &b` and `&a op &b` (generic impl<T> instantiated at T = &Bvd, &Bvf<J,N>) for Bvd and Bvf left operands, `a op= b` by value (Bvd), Bv op= &Bvf / &Bvd / &Bv "
-          "(dispatch on both operands). Shifts: `a <<= k`, `a >>= k` for Bvf, Bvd, Bv and the separately written `&bvd << k` / `&bvd >> k` bodies are verified against one contract (saturating for amounts >= len, any of the six "
+          "(dispatch on both operands), and the auto type end to end: `&a op &b` and `a op &b` on Bv (match on the left operand -> the generic form of Bvf<u64,2> / Bvd instantiated at T = &Bv -> Bvf/Bvd op= &Bv dispatching on the right operand -> the verified bodies). Shifts: `a <<= k`, `a >>= k` for Bvf, Bvd, Bv and the separately written `&bvd << k` / `&bvd >> k` bodies are verified against one contract (saturating for amounts >= len, any of the six "
           "amount types); `!a` for Bvf, &Bvf, Bvd, &Bvd (separate body), Bv. All contracts state the result over the whole abstract view and leave borrowed operands untouched (they are `&` parameters: Rust's type system, and "
           "the contracts mention only their old value). Exploration for the remaining forms: every owned/borrowed/assign form of + - * / % & | ^ << >> ! and the native-integer forms are compared against each other "
           "(identical length and bits, borrowed operands unchanged)." + DYN_NOTE),
-    note=("Not under contract (second engine only): forms of * / %, native-integer operands (they build a temporary vector), Bv's by-value/by-reference op forms, the by-value / by-reference shift forwarders. "
+    note=("Not under contract (second engine only): forms of * / %, native-integer operands (they build a temporary vector), Bv's forms with a by-value or Bvf/Bvd right operand, the by-value / by-reference shift forwarders. "
           "Assumed: derive(Clone) of Bvf/Bvd returns a structurally equal value (T1). " + TRUST_NOTE))
 MANIFEST_TEXT["C01"] = dict(
     text=("Proof (add/sub): the real bodies of AddAssign/SubAssign<&Bvf<I2,N2>> for Bvf<I1,N1> (both the same-word-size branch and the re-chunking branch through get_int) are verified against the VALUE-level contract "
